@@ -128,8 +128,11 @@ impl Links {
     pub fn new() -> Self {
         Self { logs: (0..world::EXCHANGES.len()).map(|_| Arc::new(Mutex::new(vec![]))).collect() }
     }
-    /// `modes[e]` in {"healthy","unhealthy","closed","missing"}
+    /// `modes[e]` in {"healthy","unhealthy","closed","missing"}, one per exchange of the world
     pub fn tx_map(&self, modes: &[String]) -> MultiExchangeTxMap<FaultyTx> {
+        if modes.len() != world::N_EX {
+            usage(&format!("env.link must name the link state of each of the {} exchanges (got {})", world::N_EX, modes.len()));
+        }
         MultiExchangeTxMap::from_iter(world::EXCHANGES.iter().enumerate().map(|(e, id)| {
             let mode = match modes[e].as_str() {
                 "healthy" => Some(LinkMode::Healthy),
@@ -297,6 +300,18 @@ impl Kit {
     /// Select the close-positions strategy for the event about to be processed.
     pub fn set_close_mode(&mut self, ev: &Value) {
         self.script.lock().close_cancel_first = ev["a"].as_str() == Some("ClosePositionsCF");
+    }
+
+    /// An environment recorded for the former two-exchange world (replay files): the links it does not
+    /// name are healthy.
+    pub fn normalise_env(env: &Value) -> Value {
+        let mut env = env.clone();
+        if let Some(link) = env["link"].as_array_mut() {
+            while link.len() < world::N_EX {
+                link.push(json!("healthy"));
+            }
+        }
+        env
     }
 
     /// Install the step's environment: link fault states, the strategy's output, risk refusals.
